@@ -11,6 +11,7 @@ pub mod node;
 pub mod payload;
 pub mod props;
 pub mod sandbox;
+pub mod world;
 
 use engine::Ctx;
 use std::collections::BTreeMap;
